@@ -169,7 +169,7 @@ pub fn replay_builder(a: &Args) {
     let mut rng = Rng::new(a.seed);
     let mut out = Out::create(&a.out, "builder.ndjson");
     let nlay = a.sz(2, 3);
-    let layouts: Vec<Layout> = (0..nlay).map(|i| Layout::new(2, &mut rng, i == 0)).collect();
+    let layouts: Vec<Layout> = (0..nlay).map(|i| if i == 1 { Layout::edges(2) } else { Layout::new(2, &mut rng, i == 0) }).collect();
     for (k, sc) in scen.iter().enumerate() {
         let lay = &layouts[k % nlay];
         let calls: Vec<Call> = sc["calls"]
